@@ -628,26 +628,28 @@ def bounded(tier, seed):
                                        required='payload %r, stops after %d bytes' % (v, len(enc))))
     # (c) the incremental receive loop tnet_from (newline separators ignored between messages only)
     msgs = [b'abc', b'x\ny', b'\nlead', 12, None, u'\xe9', b'', b'tail\n']
-    stream = b''.join(tnetstrings.dump(m) + b'\n' for m in msgs)
-    cuts = list(range(1, len(stream)))
-    if tier == 'quick':
-        # always the cuts that make a received block begin or end with a newline (separator or payload byte), plus a sample of the others
-        edge = [k for k in cuts if stream[k] == 10 or stream[k - 1] == 10]
-        cuts = sorted(set(edge + rng.sample(cuts, 8)))
-    for k in [None] + cuts:
-        chunks = [stream] if k is None else [stream[:k], stream[k:]]
-        ev += 1
-        distinct.add(('from', k))
-        got = tnet_from_stream(chunks)
-        want = list(msgs)
-        norm = lambda xs: [bytes(x) if isinstance(x, (bytes, bytearray)) else x for x in xs]
-        if norm(got) != norm(want) and len(violations) < 8:
-            violations.append(dict(key='tnet_from split at %r' % (k,), observed=repr(got)[:300], required=repr(want)[:300]))
+    short = [b'1', 2, b'\n', b'']
+    for label, items, sep in (('', msgs, b'\n'), (' (two separators)', short, b'\n\n'), (' (three separators)', short[:2], b'\n\n\n')):
+        stream = b''.join(tnetstrings.dump(m) + sep for m in items)
+        cuts = list(range(1, len(stream)))
+        if tier == 'quick':
+            # always the cuts that make a received block begin or end with a newline (separator or payload byte), plus a sample of the others
+            edge = [k for k in cuts if stream[k] == 10 or stream[k - 1] == 10]
+            cuts = sorted(set(edge + rng.sample(cuts, min(8, len(cuts)))))
+        for k in [None] + cuts:
+            chunks = [stream] if k is None else [stream[:k], stream[k:]]
+            ev += 1
+            distinct.add(('from', label, k))
+            got = tnet_from_stream(chunks)
+            want = list(items)
+            norm = lambda xs: [bytes(x) if isinstance(x, (bytes, bytearray)) else x for x in xs]
+            if norm(got) != norm(want) and len(violations) < 8:
+                violations.append(dict(key='tnet_from%s split at %r' % (label, k), observed=repr(got)[:300], required=repr(want)[:300]))
     return dict(evaluations=ev, distinct_nontrivial=len(distinct), distinct_keys=distinct_keys(distinct),
                 rule='(a) seeded values (ints incl. > 64 bit, bools, None, bytes that look like prefixes/colons/type tags, multi-byte text, floats, nested lists and '
                      'string-keyed dicts to depth 3) x following data: parse(dump(v) + rest) == (v, rest) with equal types; (b) the real tnet_machine fed like '
                      'tnet_from for the types it supports, every two-way split and byte-at-a-time, followed by further data: same payload, terminal, '
-                     'source.sent == len(dump(v)); (c) the real tnet_from loop on a socket pair: newline separated messages (payloads containing newlines at every position) in one chunk and two-way splits: the same payloads; distinct = distinct values / (value, chunking)',
+                     'source.sent == len(dump(v)); (c) the real tnet_from loop on a socket pair: messages separated by one, two or three newlines (payloads containing newlines at every position) in one chunk and two-way splits: the same payloads; distinct = distinct values / (value, chunking)',
                 exhaustive=False, samples=samples, violations=violations[:20], seed=seed)
 
 
